@@ -35,6 +35,33 @@ func eraLegacyTimeline() drive.Era {
 	return e
 }
 
+// CoverageAcross100 is a short chain at small heights (95..108): the height, as a decimal string, gains a digit
+// in the middle of it (nothing in the protocol depends on that, which is the point).
+func CoverageAcross100() Coverage {
+	e := drive.EraStage(drive.StV4)
+	e.Name = "v4-heights-95-108"
+	e.Base = 94
+	A, B := AddrA, AddrB
+	return Coverage{Name: "across-100", Era: e, Interesting: func(h uint32) bool { return true },
+		Build: func(b *drive.Builder) {
+			FundStd(b) // 95..98
+			g := func(s drive.BlockSpec) drive.BlockSpec {
+				if s.Rates == nil {
+					s.Rates = R1()
+				}
+				s.OPRPayTo = kit.AddrStr(KM)
+				return s
+			}
+			b.Add(g(drive.BlockSpec{TX: []fake.Entry{b.Tx(KA, kit.Transfer(A, "pUSD", 5e8, B))}}))                                       // 99
+			b.Add(g(drive.BlockSpec{Rates: R2(), TX: []fake.Entry{b.Tx(KA, kit.Conversion(A, "pUSD", 7e8, "pEUR"))}}))                  // 100
+			b.Add(g(drive.BlockSpec{TX: []fake.Entry{b.Tx(KB, kit.Transfer(B, "pUSD", 1e8, A)), b.Tx(KA, kit.Conversion(A, "pUSD", 9e8, "PEG"))}})) // 101
+			b.Add(drive.BlockSpec{TX: []fake.Entry{b.Tx(KA, kit.Transfer(A, "pEUR", 1e8, B))}})                                        // 102 ungraded
+			for b.Next() <= 108 {
+				b.Add(g(drive.BlockSpec{}))
+			}
+		}}
+}
+
 func CoverageLegacy() Coverage {
 	e := eraLegacyTimeline()
 	A, B, C := AddrA, AddrB, AddrC
